@@ -779,4 +779,5 @@ def legal_placements(rep, idx, rule):
                               # the same two tests written on the dense ratio directly (under `if not sparse`)
                               "(self.data_width // window.data_width) & ((self.data_width // window.data_width) - 1) != 0",
                               "(1 << window.alignment) < (self.data_width // window.data_width)"],
-                             allow_if=bounds, what="add_window() refuses only non-integer / non-power-of-two ratios and windows aligned more finely than the ratio")
+                             allow_if=bounds, what="add_window() refuses only non-integer / non-power-of-two ratios and windows aligned more finely than the ratio",
+                             aliases={"ratio": "1 if sparse else self.data_width // window.data_width"})
